@@ -528,11 +528,14 @@ def run(rep, tier):
                 elif e.kind in ("yield", "ret"):
                     txt.append(show(e.args[0]))
         scan(sp2.effects, ())
-        from ..sve import Ret as _Ret, leaves as _leaves
-        for g_, leaf in _leaves(out2):
-            if not isinstance(leaf, _Ret):
-                continue
-            t_ = show(leaf.value)
+        from ..sve import Ret as _Ret, leaves as _leaves, Guard as _Guard, neg as _neg
+
+        def arms(v, conds):
+            if isinstance(v, _Guard):
+                return arms(v.a, conds + (v.cond,)) + arms(v.b, conds + (_neg(v.cond),))
+            return [(conds, v)]
+        for g_, val in [(g0 + c0, v0) for g0, leaf in _leaves(out2) if isinstance(leaf, _Ret) for c0, v0 in arms(leaf.value, ())]:
+            t_ = show(val)
             gs = " ".join(show(x) for x in g_)
             if "decoded" in t_ and not any("decoded%d" % k in t_ for k in range(n_first + 1, len(calls) + 1)) and "table2" not in gs and "first2" not in gs:
                 stale.append("returns %s" % t_)
